@@ -61,9 +61,20 @@ class Report:
         """Adopt the obligations of rules `rules` of another property's module under `as_rule`: this property depends on that mechanism
         (e.g. snapshot isolation of B-tree zones depends on the B-tree's copy-on-write ownership rule).  `only(obligation)` may filter."""
         import importlib
-        mod = importlib.import_module(f"rules.{other_prop.lower()}")
-        sub = Report(other_prop, "quick")
-        mod.run(model, sub, "quick")
+        cache = model.__dict__.setdefault("_shared_reports", {})
+        sub = cache.get(other_prop)
+        if sub is None:
+            mod = importlib.import_module(f"rules.{other_prop.lower()}")
+            sub = Report(other_prop, "quick")
+            busy = model.__dict__.setdefault("_shared_busy", set())
+            if other_prop in busy:
+                raise RuntimeError(f"cyclic rule adoption through {other_prop} (adoptions must form a DAG)")
+            busy.add(other_prop)
+            try:
+                mod.run(model, sub, "quick")
+            finally:
+                busy.discard(other_prop)
+            cache[other_prop] = sub
         n = {"discharged": 0, "violated": 0, "blind": 0, "excepted": 0}
         for o in sub.obls:
             if o.rule not in rules or (only is not None and not only(o)):
